@@ -11,7 +11,7 @@ BOUNDS = {
              "executed; a fresh session after three kinds of earlier session (other ranks + matchRanks, same ranks partially consumed, aborted mid-kernel) against a cold run",
     "thorough": "adds tiled dataflows, matrix-vector 3x3, explicit-zero operands, every subset of trace types per rank",
 }
-OUTSIDE = "file-backed traces (C16 covers flush independence); metrics of the traffic/compute post-processing models"
+OUTSIDE = "file-backed traces (C16 covers flush independence); metrics of the traffic/compute post-processing models; tiled dataflows on operands that store all-default sub-fibers (region of known finding F16)"
 ASSUMPTIONS = ["A1 integers only", "A3 Metrics global state reset by the harness prologue", "S1, S2"]
 
 TYPES = {"M": ["iter", "populate_read_0", "populate_write_0", "populate_1"], "K": ["iter", "intersect_0", "intersect_1"],
@@ -192,6 +192,8 @@ def obligations(tier):
                 if traces != "none":
                     continue       # tiled dataflows rename the ranks (K.1/K.0): only the counters are checked
             for explicit in ((False, True) if (not q or (kind in ("reduce", "mv") and variant in ("row", "MK") and traces != "none")) else (False,)):
+                if explicit and ("/" in variant or variant == "t2"):
+                    continue       # tiling an operand that holds all-default sub-fibers is the region of known finding F16 (C02/C08/C09), not C15's subject
                 obs.append(Ob("transparent/%s/%s/%s%s" % (kind, variant, traces, "/e" if explicit else ""), "transparent",
                               dict(kind=kind, variant=variant, adims=adims, B=B, traces=traces, explicit=explicit), names("v", box_size(adims)), []))
     for i, (A, B) in enumerate([([[1, 0, 2], [0, 3, 4]], [5, 6, 0]), ([[0, 0, 0], [0, 0, 0]], [1, 1, 1]), ([[1, 1, 1], [0, 0, 0]], [0, 0, 0]), ([[0, 0, 1], [1, 0, 0]], [1, 0, 1])]):
